@@ -202,6 +202,11 @@ class Exec(ExecBase):
     def ev_List(self, node: ast.List, st: State) -> Iterator[Tuple[V, State]]:
         for vs, st1 in self.ev_list(node.elts, st):
             vs = [self.narrow(x, st1) for x in vs]
+            if vs and all(isinstance(x, (VTuple, VFunc)) for x in vs):
+                # a literal list of tuples / functions (a dispatch table): no heap representation; kept as an immutable sequence
+                # (a mutation of it is rejected as unsupported)
+                yield VTuple(vs), st1
+                continue
             ety = self.elem_type_of_values(vs) if vs else T.Int
             l, st2 = self.new_list(ety, "seq", st1, vs)
             if not vs:
@@ -1116,6 +1121,14 @@ class Exec(ExecBase):
             st = st.assume(goal)
         # havoc modifies
         st = self.havoc_modifies(c, ns, st)
+        if getattr(c, "allocates", False):
+            # the callee may allocate objects that stay reachable: the allocation pointer after the call is some value not below
+            # the one before (the callee's clauses can speak about `old` / current `alloc_ptr`)
+            st = st.copy()
+            hb = z3.Int(fresh_name("abase"))
+            st.pc.append(hb >= st.alloc_ptr())
+            st.abase = hb
+            st.nalloc = 0
         rty = c.returns
         if rty is None:
             rty = ty_from_ast(getattr(fi.node, "returns", None), fi.globals)
@@ -1148,6 +1161,14 @@ class Exec(ExecBase):
                 cur = st.heap.get(m)
                 if cur is None:
                     srt = _component_sort(m)
+                    if srt is None and m.startswith("F:") and "#" not in m:
+                        # a field component not read yet: its sort from the schema (the callee's view first)
+                        cn, attr = m[2:].split(".", 1)
+                        try:
+                            fty = (getattr(c, "field_types", {}) or {}).get((cn, attr)) or self.field_type(self.ct.cls(cn), attr)
+                            srt = sort_of(fty)
+                        except Exception:
+                            srt = None
                     if srt is not None:
                         cur = st.harr(m, z3.IntSort(), srt)
                 if cur is None:
@@ -1426,6 +1447,8 @@ def _component_sort(key: str) -> Any:
             return z3.IntSort()
         if key.startswith("L.elem:"):
             return z3.ArraySort(z3.IntSort(), srt(key[7:]))
+        if key.startswith("L.bag:"):
+            return z3.ArraySort(srt(key[6:]), z3.IntSort())
         if key.startswith("D.dom:"):
             return z3.ArraySort(srt(key[6:]), z3.BoolSort())
         if key.startswith("D.map:"):
